@@ -68,12 +68,16 @@ class State:
 class NS:
     """attribute view of an environment for invariants / hints."""
 
-    def __init__(self, env):
+    def __init__(self, env, fallback=None):
         object.__setattr__(self, "_env", env)
+        object.__setattr__(self, "_fb", fallback or {})
 
     def __getattr__(self, k):
         env = object.__getattribute__(self, "_env")
         if k not in env:
+            fb = object.__getattribute__(self, "_fb")
+            if k in fb:
+                return unwrap(fb[k])
             raise AttributeError(f"no variable {k!r} at this point; have {sorted(env)}")
         return unwrap(env[k])
 
@@ -197,6 +201,7 @@ class Exec:
         self.params = {}
         self.ghosts = {}
         self.nfresh = 0
+        self.lemmas_used = []
         self._prune_solver = None
 
     # -- helpers ------------------------------------------------------------
@@ -320,6 +325,14 @@ class Exec:
         pre = self.eval_requires(c, self.params)
         st.pc.append(pre)
         self.pre = pre
+        facts = getattr(c.cls, "facts", None)
+        if facts is not None:
+            from . import lemmas as L
+            for lname, arg in facts(**{k: unwrap(v) for k, v in self.params.items()}):
+                if lname not in L.LEMMAS:
+                    raise Unsupported(f"unknown lemma {lname}")
+                st.pc.append(L.LEMMAS[lname][0](arg.t if isinstance(arg, SeqV) else arg))
+                self.lemmas_used.append(lname)
         body = fn.body
         if body and isinstance(body[0], ast.Expr) and isinstance(getattr(body[0], "value", None), ast.Constant) \
                 and isinstance(body[0].value.value, str):
@@ -353,8 +366,7 @@ class Exec:
             if c.post_hints is not None:
                 kw = {k: unwrap(v) for k, v in self.params.items()}
                 kw.update({k: unwrap(v) for k, v in self.ghosts.items()})
-                for h in c.post_hints(result=unwrap(val), **kw) or []:
-                    st.pc.append(S._t(h))
+                self.apply_hints(st, c.post_hints(result=unwrap(val), **kw), "post", line)
             for name, goal in self.ensures_clauses(c, self.params, val, self.ghosts).items():
                 self.oblige(st, "post", name, goal, line)
             # cover: this return path is reachable
@@ -457,6 +469,10 @@ class Exec:
 
     def assign(self, tgt, v, st, node):
         if isinstance(tgt, ast.Name):
+            if v == ("emptydict",):
+                ty = getattr(self.c.cls, "locals", {}).get(tgt.id)
+                if ty and ty.startswith("map:"):
+                    v = MapV.empty(ty[4:])
             st.env[tgt.id] = v
         elif isinstance(tgt, (ast.Tuple, ast.List)):
             items = self.unpack(v, len(tgt.elts), st, node)
@@ -587,7 +603,7 @@ class Exec:
                     continue
                 outs.append(list(self.exec_block(arm, s1)))
             a, b = outs
-            if len(a) == 1 and len(b) == 1 and a[0][0] == "fall" and b[0][0] == "fall":
+            if getattr(self.c.cls, "merge", True) and len(a) == 1 and len(b) == 1 and a[0][0] == "fall" and b[0][0] == "fall":
                 merged = self.merge(st0, cond, a[0][1], b[0][1])
                 if merged is not None:
                     yield ("fall", merged, None)
@@ -633,7 +649,17 @@ class Exec:
         if isinstance(a, Opt):
             if a.definite() and b.definite():
                 return I(z3.If(c, S._i(a.v), S._i(b.v)))
-            return Opt(z3.If(c, S._b(a.n), S._b(b.n)), z3.If(c, S._i(a.v), S._i(b.v)))
+            n = z3.simplify(z3.If(c, S._b(a.n), S._b(b.n)))
+            if z3.is_false(n):
+                return I(z3.If(c, S._i(a.v), S._i(b.v)))
+            if not z3.is_true(n):
+                # context-sensitive: `x if x is not None else d` -- decide with the solver-free
+                # propositional simplifier under the guard
+                n2 = z3.simplify(z3.And(c, S._b(a.n)))
+                n3 = z3.simplify(z3.And(z3.Not(c), S._b(b.n)))
+                if z3.is_false(n2) and z3.is_false(n3):
+                    return I(z3.If(c, S._i(a.v), S._i(b.v)))
+            return Opt(n, z3.If(c, S._i(a.v), S._i(b.v)))
         if isinstance(a, BoolV):
             return BoolV(z3.If(c, a.t, b.t))
         if isinstance(a, RealV):
@@ -648,8 +674,14 @@ class Exec:
         if isinstance(a, MapV):
             if a.payload != b.payload:
                 return None
-            f = {k: z3.If(c, a.f[k], b.f[k]) for k in a.f}
-            return MapV(z3.If(c, a.has, b.has), f, a.payload)
+            if a.has.eq(b.has) and all(a.f[k].eq(b.f[k]) for k in a.f):
+                return a
+            self.nfresh += 1
+            m = MapV.fresh(f"mapite!{self.nfresh}", a.payload)
+            self.ctx.defs.append(m.has == z3.If(c, a.has, b.has), (m.has,))
+            for k in a.f:
+                self.ctx.defs.append(m.f[k] == z3.If(c, a.f[k], b.f[k]), (m.f[k],))
+            return m
         if isinstance(a, TupV):
             if len(a.items) != len(b.items) or a.kind != b.kind:
                 return None
@@ -671,7 +703,7 @@ class Exec:
         quantifier patterns)."""
         self.nfresh += 1
         m = z3.Const(f"seqite!{self.nfresh}", S.SeqSort)
-        self.ctx.defs.append(m == z3.If(c, ta, tb))
+        self.ctx.defs.append(m == z3.If(c, ta, tb), (m,))
         return SeqV(m, kind)
 
     def note_drop(self, stmts, why):
@@ -695,9 +727,15 @@ class Exec:
 
     # -- loops ----------------------------------------------------------------
     def loop_id(self, node, kind):
-        if id(node) not in self.loopids:
-            self.loopcount[kind] += 1
-            self.loopids[id(node)] = f"{kind}#{self.loopcount[kind]}"
+        """loops are numbered per kind in source order (stable under path exploration order)."""
+        if not self.loopids:
+            loops = [n for n in ast.walk(self.unit.fn) if isinstance(n, (ast.For, ast.While))]
+            loops.sort(key=lambda n: (n.lineno, n.col_offset))
+            cnt = {"for": 0, "while": 0}
+            for n in loops:
+                k = "for" if isinstance(n, ast.For) else "while"
+                cnt[k] += 1
+                self.loopids[id(n)] = f"{k}#{cnt[k]}"
         return self.loopids[id(node)]
 
     def assigned_names(self, stmts):
@@ -739,19 +777,19 @@ class Exec:
         itv = self.iter_symbolic(it, st, node)  # (n, elem(k) -> value, extra_assume(k))
         n = itv["n"]
         entry = st
-        v0 = NS(dict(entry.env))
+        v0 = NS(dict(entry.env), self.ghosts)
         mods = sorted(x for x in self.assigned_names(node.body) if x in entry.env)
         # ghost initialisation
         genv = {}
         if spec.ghosts:
-            init = spec.ghost_init(NS(entry.env)) if spec.ghost_init else {}
+            init = spec.ghost_init(NS(entry.env, self.ghosts)) if spec.ghost_init else {}
             for g, ty in spec.ghosts.items():
                 genv[g] = wrap(init[g]) if g in init else self.fresh_value(ty, g)
         # init
         e0 = dict(entry.env)
         e0.update(genv)
         e0["it"] = I(0)
-        for name, t in self.inv_clauses(spec, NS(e0), v0).items():
+        for name, t in self.inv_clauses(spec, NS(e0, self.ghosts), v0).items():
             self.oblige(entry, "inv-init", f"{lid}:{name}", t, node.lineno)
 
         def head_state(tag):
@@ -763,7 +801,7 @@ class Exec:
             k = self.fresh_int(f"it@{lid}{tag}")
             s.env["it"] = I(k)
             s.pc.append(z3.And(0 <= k, k <= n))
-            for name, t in self.inv_clauses(spec, NS(s.env), v0).items():
+            for name, t in self.inv_clauses(spec, NS(s.env, self.ghosts), v0).items():
                 s.pc.append(t)
             return s, k
 
@@ -795,18 +833,47 @@ class Exec:
     def loop_back(self, spec, lid, node, s2, head_env, v0, nextk, genv):
         e = dict(s2.env)
         if spec.ghost_update:
-            upd = spec.ghost_update(NS(head_env), NS(e))
+            upd = spec.ghost_update(NS(head_env, self.ghosts), NS(e, self.ghosts))
             for g, val in upd.items():
                 e[g] = wrap(val)
         e["it"] = I(nextk)
         if spec.hints:
-            for h in spec.hints(NS(head_env), NS(e)) or []:
-                s2.pc.append(S._t(h))
+            self.apply_hints(s2, spec.hints(NS(head_env, self.ghosts), NS(e, self.ghosts)), f"{lid}", node.lineno)
         for x, hv in head_env.items():
             if isinstance(hv, Opt) and hv.definite() and x in e and isinstance(e[x], Opt) and not e[x].definite():
                 self.oblige(s2, "inv-pres", f"{lid}:type:{x}", z3.Not(S._b(e[x].n)), node.lineno)
-        for name, t in self.inv_clauses(spec, NS(e), v0).items():
+        for name, t in self.inv_clauses(spec, NS(e, self.ghosts), v0).items():
             self.oblige(s2, "inv-pres", f"{lid}:{name}", t, node.lineno)
+
+    def apply_hints(self, st, hints, where, line):
+        """proof-script steps: each hint is first an obligation (kind `hint`),
+        then available as a hypothesis -- assert-then-assume, never assumed unproved."""
+        if not hints:
+            return
+        items = hints.items() if isinstance(hints, dict) else enumerate(hints)
+        for name, h in items:
+            pure = False
+            if isinstance(h, tuple) and h and h[0] == "lemma":
+                # instance of a prelude lemma (proved once, by pyvc/lemmas.py, in this run)
+                from . import lemmas as L
+                lname, largs = h[1], [S._i(x) if not isinstance(x, SeqV) else x.t for x in h[2:]]
+                for a_, b_ in _mod_operands(lname, largs):
+                    S.divmod_(a_, b_)  # make sure the ground defining instances are present
+                st.pc.append(L.LEMMAS[lname][0](*largs))
+                if lname not in self.lemmas_used:
+                    self.lemmas_used.append(lname)
+                continue
+            if isinstance(h, tuple) and len(h) == 2 and h[0] == "pure":
+                pure, h = True, h[1]
+            t = S._t(S.And(h) if isinstance(h, (list, tuple)) else h)
+            if pure:
+                # a lemma instance that follows from the definitional constraints alone
+                o = Obligation(self.unit, "hint", f"{where}:{name}", line, [], t)
+                o.path = list(st.trail)
+                self.obls.append(o)
+            else:
+                self.oblige(st, "hint", f"{where}:{name}", t, line)
+            st.pc.append(t)
 
     def inv_clauses(self, spec, v, v0):
         if spec.invariant is None:
@@ -921,16 +988,16 @@ class Exec:
         if spec is None:
             raise Unsupported(f"loop {lid} at line {node.lineno} of {self.c.qualname} has no invariant in the contract")
         entry = st
-        v0 = NS(dict(entry.env))
+        v0 = NS(dict(entry.env), self.ghosts)
         mods = sorted(x for x in self.assigned_names(node.body) if x in entry.env)
         genv = {}
         if spec.ghosts:
-            init = spec.ghost_init(NS(entry.env)) if spec.ghost_init else {}
+            init = spec.ghost_init(NS(entry.env, self.ghosts)) if spec.ghost_init else {}
             for g, ty in spec.ghosts.items():
                 genv[g] = wrap(init[g]) if g in init else self.fresh_value(ty, g)
         e0 = dict(entry.env)
         e0.update(genv)
-        for name, t in self.inv_clauses(spec, NS(e0), v0).items():
+        for name, t in self.inv_clauses(spec, NS(e0, self.ghosts), v0).items():
             self.oblige(entry, "inv-init", f"{lid}:{name}", t, node.lineno)
 
         def head_state(tag):
@@ -939,7 +1006,7 @@ class Exec:
                 s.env[x] = self.havoc_like(entry.env[x], f"{x}@{lid}{tag}")
             for g in genv:
                 s.env[g] = self.havoc_like(genv[g], f"{g}@{lid}{tag}")
-            for name, t in self.inv_clauses(spec, NS(s.env), v0).items():
+            for name, t in self.inv_clauses(spec, NS(s.env, self.ghosts), v0).items():
                 s.pc.append(t)
             return s
 
@@ -951,7 +1018,7 @@ class Exec:
             head_env = dict(sb.env)
             dec0 = None
             if spec.decreases:
-                dec0 = S._i(spec.decreases(NS(head_env), v0))
+                dec0 = S._i(spec.decreases(NS(head_env, self.ghosts), v0))
                 self.oblige(sb, "decreases", f"{lid}:bounded", dec0 >= 0, node.lineno)
             if self.feasible(sb):
                 for kind, s2, payload in self.exec_block(node.body, sb):
@@ -960,9 +1027,9 @@ class Exec:
                         if spec.decreases:
                             e = dict(s2.env)
                             if spec.ghost_update:
-                                for g, val in spec.ghost_update(NS(head_env), NS(e)).items():
+                                for g, val in spec.ghost_update(NS(head_env, self.ghosts), NS(e, self.ghosts)).items():
                                     e[g] = wrap(val)
-                            dec1 = S._i(spec.decreases(NS(e), v0))
+                            dec1 = S._i(spec.decreases(NS(e, self.ghosts), v0))
                             self.oblige(s2, "decreases", f"{lid}:strict", dec1 < dec0, node.lineno)
                     elif kind == "break":
                         yield ("fall", s2, None)
@@ -1629,6 +1696,15 @@ class Exec:
     def builtin_call(self, node, name, st):
         from . import builtins as B
         return B.call(self, node, name, st)
+
+
+def _mod_operands(lname, a):
+    if lname == "mod_shift":
+        y, m, st = a
+        return [(y + m * st, st), (y, st)]
+    if lname in ("mod_small", "mod_small_neg"):
+        return [(a[0], a[1])]
+    return []
 
 
 class _NotStatic(Exception):
